@@ -354,6 +354,21 @@ func TestVerifC14(t *testing.T) {
 			}
 		}
 	}
+	// thorough: EVERY pair of cut points (not only those around markers) for one arrangement with a marker between two frames
+	if r.Thorough() {
+		arr := "FCF"
+		total := hl + 2*fsz + 5
+		allPairs := 0
+		for k1 := 1; k1 < total && !r.Expired(); k1++ {
+			for k2 := k1 + 1; k2 < total; k2++ {
+				try(c14Case{Stage: "stream", S: s, Items: arr, Cuts: []int{k1, k2}}, len(arr))
+				streamRuns++
+				allPairs++
+				w.Nontrivial++
+			}
+		}
+		r.Bounds["all_cut_pairs_FCF"] = allPairs
+	}
 	// (b2) the camera reconnects to the same daemon instance with another frame size (larger first, then smaller,
 	// and the reverse); markers in the second stream
 	big := s
@@ -367,7 +382,7 @@ func TestVerifC14(t *testing.T) {
 		}
 	}
 	r.Bounds["stream_runs"] = streamRuns
-	r.Rule = "(a) headers.ReadHeaderInfo on a shared bufio.Reader: every camera description of the product resolutions x fps {1,9,60} x models x serials {0,1,12345,2^31-1} x firmware strings (incl. YAML-hostile ones), encoded exactly as the camera daemon does (yaml.v1 Marshal of the map keyed by the headers constants + newline), with a sentinel after the blank line, and EVERY truncation point of a subset; (b) the real handleConn on an in-memory connection: every arrangement of 3 (and 6 thorough) frames with <=2 'clear' markers at any gap, read greedily, one byte at a time, with every single cut point of the byte stream and every pair of cut points around the header end and the markers; files produced are compared with the recordings predicted by driving a real MotionProcessor directly (frames once, in order, reset at each marker); (b2) the camera reconnecting to the same daemon instance with a larger/smaller/equal frame size; (c) static extraction: marker constant and header keys of both daemons. Non-trivial = every case."
+	r.Rule = "(a) headers.ReadHeaderInfo on a shared bufio.Reader: every camera description of the product resolutions x fps {1,9,60} x models x serials {0,1,12345,2^31-1} x firmware strings (incl. YAML-hostile ones), encoded exactly as the camera daemon does (yaml.v1 Marshal of the map keyed by the headers constants + newline), with a sentinel after the blank line, and EVERY truncation point of a subset; (b) the real handleConn on an in-memory connection: every arrangement of 3 (and 6 thorough) frames with <=2 'clear' markers at any gap, read greedily, one byte at a time, with every single cut point of the byte stream and every pair of cut points around the header end and the markers (thorough: for the arrangement frame-marker-frame EVERY pair of cut points); files produced are compared with the recordings predicted by driving a real MotionProcessor directly (frames once, in order, reset at each marker); (b2) the camera reconnecting to the same daemon instance with a larger/smaller/equal frame size; (c) static extraction: marker constant and header keys of both daemons. Non-trivial = every case."
 	r.Assumptions = []string{"sendCameraSpecs itself needs camera hardware; its encoder is reproduced (3 lines) and bound to the source by the static key/marker extraction", "serial numbers beyond the platform int are out of scope"}
 	finish(t, r)
 }
